@@ -547,11 +547,19 @@ class Extractor:
             return self.var_av(fr.var(name))
         r = self.module_attr(fr.mod, name)
         if r is not None:
-            return r if isinstance(r, AV) else AV(ref=r)
+            return self.mutable_global(fr.mod.name, name, r) if isinstance(r, AV) else AV(ref=r)
         if name in BUILTIN_FRESH or name in BUILTIN_ALIAS or name == "super":
             return AV(ref=("builtin", name))
         # a module-level variable we know nothing about (table, cache, flag)
         return AV(["g:%s.%s" % (fr.mod.name, name)])
+
+    def mutable_global(self, modname, name, av):
+        """a module-level list / dict / set is STATE that calls can change (a cache, a registry): it is a variable of the skeleton
+        (`g:module.name`), so that what one call stores in it is what a later call finds there; its initial literal is forgotten"""
+        c = av.const
+        if not av.alias and av.ref is None and av.obj is None and isinstance(c, Const) and isinstance(c.v, (list, dict, set, KDict)):
+            return AV(["g:%s.%s" % (modname, name)], kind="container")
+        return av
 
     # ------------------------------------------------------------------ classes
     def base_refs(self, cls):
@@ -769,7 +777,7 @@ class Extractor:
                 x = self.module_attr(self.mod(r[1]), name)
                 if x is None:
                     return AV(["g:%s.%s" % (r[1], name)])
-                return x if isinstance(x, AV) else AV(ref=x)
+                return self.mutable_global(r[1], name, x) if isinstance(x, AV) else AV(ref=x)
             if k == "npmod":
                 return AV(ref=("np", (r[1] + "." if r[1] else "") + name))
             if k == "np":
